@@ -1,9 +1,9 @@
 CONSTANTS
   Chunks = 256
-  FullFor = {"F1", "F2", "F3", "F4", "F5", "F6", "F7"}
-  Variants = {FALSE, TRUE}
+  FullFor = {"F1", "F2", "F3", "F4", "F5", "F6", "F7", "F8"}
+  Variants = {TRUE}
 INIT Init
 NEXT Next
-INVARIANTS ModelledOnly MachineIsConv AtMostOneInv CarriesInv MetaMemberInv NodeRuleInv WayGeomInv RouteInv OptionsInv AllOptionSetsInv SkipInv
+INVARIANTS ModelledOnly MachineIsConv AsIsIsIdeal AtMostOneInv CarriesInv MetaMemberInv NodeRuleInv WayGeomInv RouteInv OptionsInv AllOptionSetsInv SkipInv
 PROPERTY InputUnmodified
 CHECK_DEADLOCK FALSE
